@@ -218,6 +218,61 @@ impl KeyGen {
     }
 }
 
+/// The generated keys as an iterator that knows its exact length (what `extend_iter` / `from_iter` get from
+/// a Vec, a slice or a range): one owned key at a time, nothing else is stored.
+pub struct GenIter<'g> {
+    pub g: &'g mut KeyGen,
+    pub left: u64,
+    pub i: u64,
+}
+impl<'g> Iterator for GenIter<'g> {
+    type Item = (Vec<u8>, u64);
+    fn next(&mut self) -> Option<(Vec<u8>, u64)> {
+        if self.left == 0 {
+            return None;
+        }
+        self.left -= 1;
+        let v = value_of(self.i);
+        self.i += 1;
+        Some((self.g.next().to_vec(), v))
+    }
+    fn size_hint(&self) -> (usize, Option<usize>) {
+        (self.left as usize, Some(self.left as usize))
+    }
+}
+impl<'g> ExactSizeIterator for GenIter<'g> {}
+
+/// The generated keys as a user stream (what `extend_stream` gets).
+pub struct GenStream<'g> {
+    pub g: &'g mut KeyGen,
+    pub left: u64,
+    pub i: u64,
+}
+impl<'a, 'g> fst::Streamer<'a> for GenStream<'g> {
+    type Item = (&'a [u8], u64);
+    fn next(&'a mut self) -> Option<(&'a [u8], u64)> {
+        if self.left == 0 {
+            return None;
+        }
+        self.left -= 1;
+        let v = value_of(self.i);
+        self.i += 1;
+        Some((self.g.next(), v))
+    }
+}
+pub struct GenKeys<'g>(GenStream<'g>);
+impl<'g> GenStream<'g> {
+    pub fn keys_only(self) -> GenKeys<'g> {
+        GenKeys(self)
+    }
+}
+impl<'a, 'g> fst::Streamer<'a> for GenKeys<'g> {
+    type Item = &'a [u8];
+    fn next(&'a mut self) -> Option<&'a [u8]> {
+        fst::Streamer::next(&mut self.0).map(|kv| kv.0)
+    }
+}
+
 #[derive(Clone, Debug, Default)]
 pub struct Meas {
     pub peak_new: u64,
@@ -296,9 +351,25 @@ pub fn measure_build(c: &Cfg, n: u64) -> Meas {
             assert!((c.rows, c.cols) == (crate::core::drows(), crate::core::dcols()));
             let mut b = fst::SetBuilder::new(DiscardSink::for_seed(c.seed)).unwrap();
             let peak_new = mem::peak();
-            for _ in 0..n {
-                if b.insert(g.next()).is_err() {
-                    panic!("builder rejected a generated key");
+            // the entry point is a function of the seed: single inserts, extend_iter with an iterator that
+            // announces its exact length (size_hint), extend_stream from a user stream
+            match (c.seed / 4) % 3 {
+                0 => {
+                    for _ in 0..n {
+                        if b.insert(g.next()).is_err() {
+                            panic!("builder rejected a generated key");
+                        }
+                    }
+                }
+                1 => {
+                    if b.extend_iter(GenIter { g: &mut g, left: n, i: 0 }.map(|kv| kv.0)).is_err() {
+                        panic!("builder rejected a generated key");
+                    }
+                }
+                _ => {
+                    if b.extend_stream(GenStream { g: &mut g, left: n, i: 0 }.keys_only()).is_err() {
+                        panic!("builder rejected a generated key");
+                    }
                 }
             }
             let sink = b.into_inner().unwrap();
@@ -308,9 +379,23 @@ pub fn measure_build(c: &Cfg, n: u64) -> Meas {
             assert!((c.rows, c.cols) == (crate::core::drows(), crate::core::dcols()));
             let mut b = fst::MapBuilder::new(DiscardSink::for_seed(c.seed)).unwrap();
             let peak_new = mem::peak();
-            for i in 0..n {
-                if b.insert(g.next(), value_of(i)).is_err() {
-                    panic!("builder rejected a generated key");
+            match (c.seed / 4) % 3 {
+                0 => {
+                    for i in 0..n {
+                        if b.insert(g.next(), value_of(i)).is_err() {
+                            panic!("builder rejected a generated key");
+                        }
+                    }
+                }
+                1 => {
+                    if b.extend_iter(GenIter { g: &mut g, left: n, i: 0 }).is_err() {
+                        panic!("builder rejected a generated key");
+                    }
+                }
+                _ => {
+                    if b.extend_stream(GenStream { g: &mut g, left: n, i: 0 }).is_err() {
+                        panic!("builder rejected a generated key");
+                    }
                 }
             }
             let sink = b.into_inner().unwrap();
@@ -409,6 +494,7 @@ impl Prop for P {
                         stats.bump(&format!("build_n{}", n));
                         stats.bump(&format!("build_family_{}", fam));
                         stats.bump("public_front_end_cases");
+                        stats.bump(&format!("front_end_insert_extenditer_extendstream_{}", (seed / 4) % 3));
                     }
                 }
             }
